@@ -1268,17 +1268,25 @@ def judge_split(cx, parts, only_wt, opt):
             return
         order_src = np.asarray(src)
         # repeated faces (same three vertices, any corner order) cannot be told apart when no
-        # colour / uv carries their id: give every copy the id of the first one, so that the
-        # order claim is judged between distinguishable faces only
-        first = {}
+        # colour / uv carries their id: a piece face stands for ANY copy of its triangle.  The
+        # order claim holds iff the copies can be chosen so that the ids increase; greedily take,
+        # for each face in turn, the smallest copy above the previous choice (the first version
+        # gave every copy the id of the first one, which turned [copy of 2, copy of 0 = 8] into a
+        # false alarm - thorough tier, seed 0)
+        classes = {}
         for fi, tri in enumerate(np.sort(np.asarray(T.F), axis=1).tolist()):
-            first.setdefault(tuple(tri), fi)
-        canon = np.array([first[tuple(sorted(np.asarray(T.F)[int(i)].tolist()))] for i in order_src], dtype=np.int64) if len(order_src) else order_src
-        if len(canon) and not np.array_equal(canon, order_src):
-            cx.run.count("split_order_duplicate_faces_canonicalised")
-            # duplicates may now repeat an id: drop consecutive repeats before the strict test
-            keep = np.r_[True, np.diff(canon) != 0]
-            order_src = canon[keep]
+            classes.setdefault(tuple(tri), []).append(fi)
+        if len(order_src) and any(len(v) > 1 for v in classes.values()):
+            chosen, prev = [], -1
+            for i in order_src.tolist():
+                copies = classes[tuple(sorted(np.asarray(T.F)[int(i)].tolist()))]
+                nxt = [c for c in copies if c > prev and c not in chosen]
+                pick = nxt[0] if nxt else int(i)
+                chosen.append(pick)
+                prev = max(prev, pick) if nxt else prev
+            if chosen != order_src.tolist():
+                cx.run.count("split_order_duplicate_faces_reassigned")
+            order_src = np.asarray(chosen, dtype=np.int64)
         if only_wt and len(order_src) > 1:
             # only_watertight=True runs fill_holes (even with repair=False, util.submesh), which
             # APPENDS new faces; their inferred ids are not survivors' ids, so the order claim
